@@ -264,6 +264,8 @@ func (pxy *UDPProxy) Close() {
 		close(pxy.checkCloseCh)
 		close(pxy.readCh)
 		close(pxy.sendCh)
+
+		// release the port exactly once: the forwarder goroutine calls Close again after udpConn is closed
+		pxy.rc.UDPPortManager.Release(pxy.realBindPort)
 	}
-	pxy.rc.UDPPortManager.Release(pxy.realBindPort)
 }
